@@ -32,6 +32,10 @@ SAFE = ["a", "b", "c", "X", "Y", "1", "é", "Ω", "𝒳", "á", "&", "<", ">", 
 CTRL = ["\x01", "\x08", "\x0b", "\x0c", "\x1f", "\x00", "a\x02b"]
 NAMES = ["Fm1", "A&B", "<tag>", 'q"uote', "it's", "x y", "é", "a<b>c&d\"e'f"]
 CONTROL = re.compile("[\x00-\x08\x0b-\x0c\x0e-\x1f]")
+# font F3 (/ToUnicode /Identity-H: the text of code c is chr(c)) shows halves of surrogate pairs: not characters, so
+# no well-formed XML document can hold them; they are left out of the character data whatever the sink is
+SURROGATE = re.compile("[\ud800-\udfff]")
+F3_CODES = [0xD800, 0x41, 0xDFFF, 0xDBFF, 0x7A, 0xDC00]
 
 
 def build_pdf(case):
@@ -58,7 +62,11 @@ def build_pdf(case):
     objs[16] = W.Stream({}, cmap2)
     objs[12] = W.Stream(W.D(Type=W.N("XObject"), Subtype=W.N("Image"), Width=2, Height=2, ColorSpace=W.N("DeviceGray"),
                             BitsPerComponent=8), b"\x00\x40\x80\xff")
-    fonts = {b"F1": W.R(10), b"F2": W.R(13)}
+    objs[17] = W.D(Type=W.N("Font"), Subtype=W.N("Type0"), BaseFont=W.N("Ident"), Encoding=W.N("Identity-H"),
+                   DescendantFonts=[W.R(18)], ToUnicode=W.N("Identity-H"))
+    objs[18] = W.D(Type=W.N("Font"), Subtype=W.N("CIDFontType2"), BaseFont=W.N("Ident"),
+                   CIDSystemInfo=W.D(Registry=b"Adobe", Ordering=b"Identity", Supplement=0), DW=500, FontDescriptor=W.R(15))
+    fonts = {b"F1": W.R(10), b"F2": W.R(13), b"F3": W.R(17)}
     forms = case.get("forms", [])
     xobj = {case.get("imgname", "Im0").encode("utf-8"): W.R(12)}
     for i, f in enumerate(forms):
@@ -85,6 +93,8 @@ def content_bytes(items, xobj):
         if k == "text":
             if it.get("font") == "F2":
                 codes = b"".join((33 + c).to_bytes(2, "big") for c in it["codes"])
+            elif it.get("font") == "F3":
+                codes = b"".join(F3_CODES[c % len(F3_CODES)].to_bytes(2, "big") for c in it["codes"])
             else:
                 codes = bytes(33 + c for c in it["codes"])
             out.append(b"BT /%s %d Tf %s %s Td <%s> Tj ET" % (it.get("font", "F1").encode(), it["size"], _num(it["x"]), _num(it["y"]),
@@ -192,6 +202,7 @@ def expected_xml(pages, strip):
             t = item.get_text()
             if strip:
                 t = CONTROL.sub("", t)
+            t = SURROGATE.sub("", t)
             return ("text", {"font": xml_attr(item.fontname), "bbox": b2s(item.bbox), "size": "%.3f" % item.size},
                     xml_chardata(t), [])
         if isinstance(item, LTAnno):
@@ -241,6 +252,8 @@ def run_case(case):
     pdf = build_pdf(case)
     la = mk_laparams(case["la"])
     classes = ["out:" + case["output"], "la:" + case["la"], "sink:" + case["sink"]]
+    if any(it.get("font") == "F3" for items_ in case["pages"] for it in items_):
+        classes.append("lone-surrogates")
     alltext = "".join(case["alphabet"]) + case["fontname"] + "".join(f["name"] for f in case.get("forms", []))
     nt = any(ord(c) > 127 or c in "&<>\"'" for c in alltext) or bool(case.get("forms")) or case["sink"] not in ("str", "utf-8")
     try:
@@ -339,6 +352,11 @@ def _xml_part(case, classes, nt, pdf, sink, codec, la, ref, desc, kw, imgdir):
                 return Outcome(classes, nt, fail="XML declaration %r does not name the codec %s" % (data[:60], codec))
     except Exception as e:
         return Outcome(classes, nt, fail="extract_text_to_fp(xml) raised %s: %s; %s" % (type(e).__name__, e, desc()))
+    m = SURROGATE.search(data)
+    if m:
+        # not a character of XML 1.0 (production [2] Char): no parser accepts the document
+        return Outcome(classes, nt, fail="XML output is not well-formed: it holds the lone surrogate U+%04X at offset %d; %s" % (
+            ord(m.group()), m.start(), desc()))
     try:
         root = ET.fromstring(data)
     except ET.ParseError as e:
@@ -434,6 +452,12 @@ def cases(draw):
         forms.append({"name": nm, "dx": draw(st.integers(0, 200)), "dy": draw(st.integers(0, 200)),
                       "items": draw(items(len(alphabet), [f["name"] for f in forms]))})
     pages = [draw(items(len(alphabet), names)) for _ in range(draw(st.integers(1, 3)))]
+    if output == "xml" and draw(st.integers(0, 3)) == 0:
+        # the vertical-font lines of the pages are shown with F3 instead (lone surrogates in the glyph text)
+        for items_ in pages:
+            for it in items_:
+                if it["k"] == "text" and it.get("font") == "F2":
+                    it["font"] = "F3"
     fontname = draw(st.sampled_from(["Plain", "A&B", "F<1>", 'Q"x', "it's", "Ünï", "a&lt;b", "Sale%Off", "100%%", "%s%d", "Half%", "{0}{x}", "a\\b"]))
     allchars = "".join(alphabet)
     sinks = ["str", "utf-8", "utf-16", "utf-16-le"]
